@@ -1,37 +1,71 @@
 /* VERIF-UNIT
 {
  "name": "ea_refcount_intr_next",
- "props": ["C01", "C02"],
+ "props": [
+  "C01",
+  "C02"
+ ],
  "level": "U",
- "tier": "wip",
+ "tier": "quick",
  "harness": "h_ea_iter",
- "enforce": ["ea_refcount_intr_next", "ea_refcount_intr_begin"],
+ "enforce": [
+  "ea_refcount_intr_next",
+  "ea_refcount_intr_begin"
+ ],
  "loop_contracts": true,
- "includes": ["e2fsck", "lib/support"],
- "defines": ["EXT2_CUSTOM_MEMORY_ROUTINES", "EA_ITER"],
+ "includes": [
+  "e2fsck",
+  "lib/support"
+ ],
+ "defines": [
+  "EXT2_CUSTOM_MEMORY_ROUTINES",
+  "EA_ITER"
+ ],
  "unwind": 10,
  "unwind_reason": "no loop of the real code is unwound (in-place loop contract); 10 covers the loops of the contract-instrumentation library",
- "functions": ["e2fsck/ea_refcount.c:ea_refcount_intr_next", "e2fsck/ea_refcount.c:ea_refcount_intr_begin"],
- "assumes": ["count <= size <= 2^31 entries; list of symbolic length and arbitrary content; arbitrary cursor (also beyond count)",
-	     "'visited in key order' follows from index order because the list is strictly ascending (well_formed, ensured by the mutating operations)"],
- "native": false
+ "functions": [
+  "e2fsck/ea_refcount.c:ea_refcount_intr_next",
+  "e2fsck/ea_refcount.c:ea_refcount_intr_begin"
+ ],
+ "assumes": [
+  "count <= size <= 2^31 entries; list of symbolic length and arbitrary content; arbitrary cursor (also beyond count)",
+  "'visited in key order' follows from index order because the list is strictly ascending (well_formed, ensured by the mutating operations)"
+ ],
+ "native": false,
+ "tier_after_hooks": "quick"
 }
 */
 /* VERIF-UNIT
 {
  "name": "ea_refcount_create",
- "props": ["C01"],
+ "props": [
+  "C01"
+ ],
  "level": "U",
- "tier": "wip",
+ "tier": "quick",
  "harness": "h_ea_create",
- "enforce": ["ea_refcount_create"],
- "includes": ["e2fsck", "lib/support"],
- "defines": ["EXT2_CUSTOM_MEMORY_ROUTINES", "EA_CREATE"],
+ "enforce": [
+  "ea_refcount_create"
+ ],
+ "includes": [
+  "e2fsck",
+  "lib/support"
+ ],
+ "defines": [
+  "EXT2_CUSTOM_MEMORY_ROUTINES",
+  "EA_CREATE"
+ ],
  "unwind": 10,
  "unwind_reason": "loop-free; 10 covers the loops of the contract-instrumentation library",
- "functions": ["e2fsck/ea_refcount.c:ea_refcount_create", "e2fsck/ea_refcount.c:ea_refcount_free", "e2fsck/ea_refcount.c:ext2fs_get_refcount_size"],
- "assumes": ["requested size <= 2^31 entries (every caller passes 0; size * 16 would wrap beyond 2^60)",
-	     "ext2fs_get_memzero / ext2fs_free_mem as calloc / free (allocation may fail)"],
+ "functions": [
+  "e2fsck/ea_refcount.c:ea_refcount_create",
+  "e2fsck/ea_refcount.c:ea_refcount_free",
+  "e2fsck/ea_refcount.c:ext2fs_get_refcount_size"
+ ],
+ "assumes": [
+  "requested size <= 2^31 entries (every caller passes 0; size * 16 would wrap beyond 2^60)",
+  "ext2fs_get_memzero / ext2fs_free_mem as calloc / free (allocation may fail)"
+ ],
  "native": false
 }
 */
